@@ -307,6 +307,53 @@ theorem writeRow_at_threshold {ρ : Type} {fl cl : Nat} {bad : ρ → Bool} {s s
       cases hw
       exact hb3
 
+/-! ### the commit `generate` issues before the run can report success (fix 043066e) -/
+
+theorem conserve_preCommit {ρ : Type} {pre : Bool} {bad : ρ → Bool} {s s' : Db ρ} {known : List String}
+    {ws : List (String × ρ)} (h : Conserve s known ws) (hf : s.preCommit pre bad = some s') :
+    Conserve s' known ws ∧ s'.count = s.count := by
+  unfold Db.preCommit at hf
+  split at hf
+  · exact conserve_commit h hf
+  · cases hf; exact ⟨h, rfl⟩
+
+theorem preCommit_ok_of_good {ρ : Type} {pre : Bool} {bad : ρ → Bool} {s : Db ρ} {known : List String}
+    {ws : List (String × ρ)} (h : Conserve s known ws) (hg : ∀ w ∈ ws, bad w.2 = false) :
+    ∃ s', s.preCommit pre bad = some s' := by
+  unfold Db.preCommit
+  split
+  · exact commit_ok_of_good h hg
+  · exact ⟨_, rfl⟩
+
+/-- a flush of empty schema buffers cannot fail -/
+theorem flush_ok_of_clear {ρ : Type} {bad : ρ → Bool} {s : Db ρ}
+    (h : ∀ T, s.known.contains T = true → s.buffered T = []) : ∃ s', s.flush bad = some s' := by
+  unfold Db.flush
+  have : s.known.any (fun t => (s.buffered t).any bad) = false := by
+    rw [List.any_eq_false]
+    intro t ht
+    rw [h t (List.contains_iff_mem.2 ht)]
+    simp
+  simp only [this]
+  exact ⟨_, rfl⟩
+
+/-- **a commit that follows a successful commit cannot fail**: either the first one flushed (the
+    schema buffers are empty) or it had nothing to do (and neither has the second). -/
+theorem commit_after_commit {ρ : Type} {bad : ρ → Bool} {s s1 : Db ρ} (hf : s.commit bad = some s1) :
+    ∃ s2, s1.commit bad = some s2 := by
+  unfold Db.commit at hf
+  split at hf
+  · obtain ⟨hk, _, hb⟩ := flush_clears hf
+    unfold Db.commit
+    split
+    · exact flush_ok_of_clear (fun T hT => hb T (by rw [← hk]; exact hT))
+    · exact ⟨_, rfl⟩
+  · rename_i hany
+    cases hf
+    unfold Db.commit
+    simp only [hany]
+    exact ⟨_, rfl⟩
+
 /-! ### schema -/
 
 theorem mem_addField {fs : List String} {f x : String} : x ∈ addField fs f ↔ x ∈ fs ∨ x = f :=
